@@ -125,7 +125,7 @@ CHECKS = {
     ),
     'C12': dict(
         props=['C12', 'C01', 'C09'], opts='props=1 twin=1 q=1', variant='san',
-        quick=[mc(2, SMALL, DEL + BUT, DEL + GC + BUT + ['add_edge', 'add_face_v', 'add_cell_closed', 'enable_deferred'], Modes='ModesTwo'),
+        quick=[mc(2, [2, 5, 6], DEL + BUT, DEL + GC + BUT + ['add_edge', 'add_face_v', 'add_cell_closed', 'enable_deferred'], Modes='ModesTwo'),
                mc(1, MAINSEEDS, [], SWAP, Modes='ModesDefault')],
         thorough=[mc(3, [2, 5, 6], DEL + GC + BUT, DEL + BUT + GC + ['add_edge', 'add_face_v', 'add_cell_closed', 'enable_deferred']),
                   mc(2, SMALL + EXTRA, DEL + BUT, SWAP, Modes='ModesTwo')],
@@ -134,7 +134,9 @@ CHECKS = {
     'C17': dict(
         props=['C17', 'C03', 'C01'], opts='props=2',
         quick=[mc(1, MAINSEEDS + EXTRA, [], SWAP, Modes='ModesDefault'),
-               mc(2, [5, 6, 1], DEL, SWAP, Modes='ModesDeferred', BUSets='BUTwo')],
+               mc(2, [5, 6, 1], DEL, SWAP, Modes='ModesDeferred', BUSets='BUTwo'),
+               # a deleted cell and the cell that replaced it list the same halffaces
+               mc(3, [5, 1], ['delete_cell', 'add_cell_closed'], ['swap_cells', 'swap_faces'], Modes='ModesDeferred', BUSets='BUTwo')],
         thorough=[mc(2, MAINSEEDS + EXTRA, DEL, SWAP, Modes='ModesTwo'),
                   mc(3, [5, 6], DEL + ['add_cell_closed'], SWAP, Modes='ModesDeferred')],
         sim=dict(ops=SWAP + SWAP + DEL + GC + ADDS),
